@@ -15,9 +15,19 @@ def ph : CPc → Nat
   | .doneClosedPc => 2
   | .pass _ => 3
   | .purgePc => 4
-  | .reporterClose => 5
-  | .returned _ => 6
+  | .flushPc => 5
+  | .reporterClose => 6
+  | .returned _ => 7
   | .returnedNil => 0
+
+/-- after a step of its final pass the call is still in the pass, or about to purge -/
+theorem ph_afterPass (oq : Option PassPc) : ph (afterPass oq) = 3 ∨ ph (afterPass oq) = 4 := by
+  cases oq with
+  | none => right; rfl
+  | some q => cases q <;> simp [afterPass, ph]
+
+theorem afterPass_ne_returned (oq : Option PassPc) (r : Option Nat) : afterPass oq ≠ .returned r := by
+  intro h; have := ph_afterPass oq; rw [h] at this; simp [ph] at this
 
 /-- program counter of the winning call (`start` while nobody has won) -/
 def wpc (s : State) : CPc :=
@@ -298,25 +308,32 @@ theorem ctl_step (s s' : State) (e : Ev) (h : Ctl s) (hs : step s e = some s') :
       have hd := h.done_iff; rw [wpc_of_winner hw, hpc] at hd; simp [ph] at hd
       have hex := h.loopEx (by rw [wpc_of_winner hw, hpc]; simp [ph])
       split at hs
-      · next s1 q hp =>
+      · next s1 oq hp =>
         simp only [Option.some.injEq] at hs; subst hs
         obtain ⟨c, l, rfl⟩ := passStep_frame hp
-        exact h.wstep hw (by rw [hpc]; rfl) (.pass q) s.doneClosed s.purged c l s.dropped s.returns
-          (by simp [ph]) (by simp [ph, hd]) (fun _ => hex) (by simp [ph, hpg]) (Or.inl rfl) (by intro r hr; cases hr)
-      · next s1 hp =>
-        simp only [Option.some.injEq] at hs; subst hs
-        obtain ⟨c, l, rfl⟩ := passStep_frame hp
-        exact h.wstep hw (by rw [hpc]; rfl) .purgePc s.doneClosed s.purged c l s.dropped s.returns
-          (by simp [ph]) (by simp [ph, hd]) (fun _ => hex) (by simp [ph, hpg]) (Or.inl rfl) (by intro r hr; cases hr)
+        have h34 := ph_afterPass oq
+        exact h.wstep hw (by rw [hpc]; rfl) (afterPass oq) s.doneClosed s.purged c l s.dropped s.returns
+          (by omega) (by rw [hd]; exact (decide_eq_true (by omega)).symm) (fun _ => hex)
+          (by rw [hpg]; exact (decide_eq_false (by omega)).symm) (Or.inl rfl)
+          (by intro r hr; exact absurd hr (afterPass_ne_returned oq r))
       · cases hs
     · next hpc =>
       have hw := h.winner_of t (by rw [hpc]; simp [ph])
       simp only [Option.some.injEq] at hs; subst hs
       have hd := h.done_iff; rw [wpc_of_winner hw, hpc] at hd; simp [ph] at hd
       have hex := h.loopEx (by rw [wpc_of_winner hw, hpc]; simp [ph])
-      exact h.wstep hw (by rw [hpc]; rfl) .reporterClose s.doneClosed true (s.cells.map fun _ => [])
+      exact h.wstep hw (by rw [hpc]; rfl) .flushPc s.doneClosed true (s.cells.map fun _ => [])
         s.log (s.cells.flatten ++ s.dropped) s.returns
         (by simp [ph]) (by simp [ph, hd]) (fun _ => hex) (by simp [ph]) (Or.inl rfl) (by intro r hr; cases hr)
+    · next hpc =>
+      have hw := h.winner_of t (by rw [hpc]; simp [ph])
+      simp only [Option.some.injEq] at hs; subst hs
+      have hpg := h.purged_iff; rw [wpc_of_winner hw, hpc] at hpg; simp [ph] at hpg
+      have hd := h.done_iff; rw [wpc_of_winner hw, hpc] at hd; simp [ph] at hd
+      have hex := h.loopEx (by rw [wpc_of_winner hw, hpc]; simp [ph])
+      exact h.wstep hw (by rw [hpc]; rfl) .reporterClose s.doneClosed s.purged s.cells (.flush :: s.log)
+        s.dropped s.returns
+        (by simp [ph]) (by simp [ph, hd]) (fun _ => hex) (by simp [ph, hpg]) (Or.inl rfl) (by intro r hr; cases hr)
     · next hpc =>
       have hw := h.winner_of t (by rw [hpc]; simp [ph])
       have hpg := h.purged_iff; rw [wpc_of_winner hw, hpc] at hpg; simp [ph] at hpg
@@ -418,12 +435,7 @@ theorem step_params (s s' : State) (e : Ev) (hs : step s e = some s') : SamePara
       · cases hs
     · next p hpc =>
       split at hs
-      · next s1 q hp =>
-        simp only [Option.some.injEq] at hs; subst hs
-        have hlen := passStep_length hp
-        obtain ⟨c, l, rfl⟩ := passStep_frame hp
-        exact ⟨rfl, rfl, rfl, hlen⟩
-      · next s1 hp =>
+      · next s1 oq hp =>
         simp only [Option.some.injEq] at hs; subst hs
         have hlen := passStep_length hp
         obtain ⟨c, l, rfl⟩ := passStep_frame hp
@@ -431,6 +443,7 @@ theorem step_params (s s' : State) (e : Ev) (hs : step s e = some s') : SamePara
       · cases hs
     · simp only [Option.some.injEq] at hs; subst hs
       exact ⟨rfl, rfl, rfl, by simp [setC, purgeAll]⟩
+    · simp only [Option.some.injEq] at hs; subst hs; exact ⟨rfl, rfl, rfl, rfl⟩
     · split at hs <;> (simp only [Option.some.injEq] at hs; subst hs) <;> exact ⟨rfl, rfl, rfl, rfl⟩
     · cases hs
     · cases hs
